@@ -4,7 +4,7 @@
    running the productions and tables regenerated from /repo (the CssV.Gen files), fullsheet = false.
    Lexeme classes, `text`, `classify`, `ok_follow` (adjacency): CssV.Lexemes.                    *)
 From CssV Require Import Base Regex RegexFacts LexemeRegex Gen.Productions Gen.TokTables Tokenizer
-  Lexemes LexemeFacts LexemeSweep.
+  Lexemes LexemeFacts LexemeSweep LexemeEscape.
 
 (* ---- general regex facts, proved once ---- *)
 
@@ -76,6 +76,16 @@ Theorem lexeme_token_value : forall l rest, ok_follow l rest = true ->
 Proof. exact finish_classify. Qed.
 Print Assumptions lexeme_token_value.
 
+(* which classes carry a resolved value (table regenerated from tokenize2.py l.209-211) *)
+Theorem resolved_types_table :
+  forallb (fun n => mem_str n resolved_types)
+    [s "IDENT"; s "FUNCTION"; s "HASH"; s "DIMENSION"; s "STRING"; s "URI"; s "UNICODE-RANGE"; s "COMMENT"] = true /\
+  forallb (fun n => negb (mem_str n resolved_types))
+    [s "NUMBER"; s "PERCENTAGE"; s "S"; s "CHAR"; s "ATKEYWORD"; s "INCLUDES"; s "CDO"; s "CDC"] = true /\
+  mem_str (s "STRING") clean_types = true /\ mem_str (s "IDENT") clean_types = false /\
+  mem_str (s "URI") clean_types = false.
+Proof. exact resolved_types_cover. Qed.
+
 (* ---- the property: any adjacent sequence of lexemes of the proved classes is returned as exactly
         that sequence of (type, value) tokens                                                      *)
 Theorem lexeme_sequence : forall ls, adjacent ls = true -> start_ok (concat (map text ls)) = true ->
@@ -121,6 +131,30 @@ Proof. exact delim_sweep. Qed.
 Theorem atkeyword_lookup_sweep_finite : forallb (fun c => tok_is (fst c) (snd c)) at_cases = true.
 Proof. exact at_sweep. Qed.
 Print Assumptions atkeyword_lookup_sweep_finite.
+
+(* ---- escape resolution ----
+   hex_escape_resolved (partial): for EVERY canonical element list in which an escaped backslash is not
+   directly followed by a hex digit (wfu_els), Tokenizer.unicodesub returns the denoted characters:
+   hex escapes replaced (beyond U+10FFFF kept verbatim), one optional terminator swallowed, literal
+   escapes and escaped newlines verbatim.  The excluded case is refuted below.                      *)
+Theorem hex_escape_resolved_partial : forall els, wfu_els els = true -> unicodesub (render els) = denote els.
+Proof. exact hex_escape_resolved_lemma. Qed.
+Print Assumptions hex_escape_resolved_partial.
+
+Theorem ident_value : forall d e0 els, wfu_els (dash_el d ++ e0 :: els) = true ->
+  classify (LIdent d e0 els) = (s "IDENT", denote (dash_el d ++ e0 :: els)).
+Proof. exact ident_value_lemma. Qed.
+Theorem hash_value : forall els, wfu_els els = true -> classify (LHash els) = (s "HASH", 35%N :: denote els).
+Proof. exact hash_value_lemma. Qed.
+Print Assumptions ident_value.
+
+Example hex_escape_example :
+  wfu_els [P 97; H [52%N; 49%N] [13%N; 10%N]; L 122; H [48%N; 48%N; 48%N; 48%N; 54%N; 49%N] []; L 92; P 120;
+           H [49%N; 49%N; 48%N; 48%N; 48%N; 48%N] [32%N]] = true /\
+  denote [P 97; H [52%N; 49%N] [13%N; 10%N]; L 122; H [48%N; 48%N; 48%N; 48%N; 54%N; 49%N] []; L 92; P 120;
+          H [49%N; 49%N; 48%N; 48%N; 48%N; 48%N] [32%N]] =
+  s "aA" ++ [92%N] ++ s "za" ++ [92%N; 92%N] ++ s "x" ++ [92%N] ++ s "110000 ".
+Proof. vm_compute. split; reflexivity. Qed.
 
 (* ---- where the pinned code leaves the grammar (open findings, witnesses replayed by the harness) ----
    Full statement that does NOT hold:  forall els, wf_els ... els [] -> value (IDENT (render els)) = denote els.
